@@ -1,2 +1,39 @@
-void h_vse(void) { SchindelhauerTMCG *self; TMCG_Stack_VTMF_Card *s, *s2; _Bool cyc; BarnettSmartVTMF_dlog *vtmf; ios_t *in, *out;
-  SchindelhauerTMCG__TMCG_VerifyStackEquality(self, s, s2, cyc, vtmf, in, out); }
+#ifndef LEVELMAX
+#define LEVELMAX 2
+#endif
+/* bounded stand-in (see group.json): the REAL verifier against every prover transcript */
+void h_vse(void)
+{
+  SchindelhauerTMCG self; __CPROVER_assume(self.TMCG_SecurityLevel <= LEVELMAX);
+  BarnettSmartVTMF_dlog *vtmf = (BarnettSmartVTMF_dlog *)__verif_new(sizeof(BarnettSmartVTMF_dlog)); __CPROVER_assume(V(vtmf->p) > 1);
+  TMCG_Stack_VTMF_Card s, s2; TMCG_Stack_VTMF_Card__ctor_0(&s); TMCG_Stack_VTMF_Card__ctor_0(&s2);
+  s.stack.size = nondet_ulong(); s2.stack.size = nondet_ulong(); /* arbitrary contents, arbitrary sizes */
+  __CPROVER_assume(s.stack.size <= MAXN && s2.stack.size <= MAXN);
+  ios_t in, out; ios_t__ctor_0(&in); ios_t__ctor_0(&out);
+  in.tok = (long *)__verif_new_array(sizeof(long), IOS_MAXTOK); in.ntok = nondet_ulong(); __CPROVER_assume(in.ntok <= 8); in.eof_after_last = nondet_bool();
+  _Bool cyclic = nondet_bool();
+  __CPROVER_assume(bit_n == 0 && mix_n == 0 && hash_n == 0 && putstack_n == 0 && ev_n == 0 && __tmcg_thrown == 0);
+  __CPROVER_assume(ghost_ok == ghost_r && ghost_ik == 2 * ghost_r);
+  _Bool ok = SchindelhauerTMCG__TMCG_VerifyStackEquality(&self, &s, &s2, cyclic, vtmf, &in, &out);
+  /* C12: clean refusal */
+  __CPROVER_assert(__tmcg_thrown == 0 || (__tmcg_thrown == TMCG_EXC_runtime_error && in.fail), "only a malformed number can raise an exception");
+  if (ok)
+  {
+    __CPROVER_assert(self.TMCG_SecurityLevel < 2 || !cyclic || s.stack.size < 2, "REACHABILITY-CANARY (must fail): an accepting run with 2 rounds, rotation and >= 2 cards exists");
+    size_t L = self.TMCG_SecurityLevel;
+    __CPROVER_assert(s.stack.size == s2.stack.size, "C04: accepted => equal stack sizes");
+    if (ghost_i < s2.stack.size)
+      __CPROVER_assert(CE(C1(&s2, ghost_i)) && CE(C2(&s2, ghost_i)), "C04: accepted => every card of the claimed shuffle is a group element");
+    __CPROVER_assert(bit_n == L && mix_n == L && hash_n == L && out.nput == L, "C04: one fresh bit, one re-mix, one hash comparison per round");
+    if (ghost_r < L)
+    {
+      __CPROVER_assert((gr_bit == 0 || gr_bit == 1) && out.okv == gr_bit, "C04: the challenge sent is the fresh bit of that round");
+      __CPROVER_assert(in.ikev < out.okev, "C04: the challenge is sent only after the commitment was received");
+      __CPROVER_assert(gr_src == ((gr_bit & 1) ? &s2 : &s), "C04: the bit selects which stack is re-mixed with the received secret");
+      __CPROVER_assert(gr_ss_size == s.stack.size && gr_src_size == s.stack.size, "C04/C12: the received secret has the size of the stacks");
+      __CPROVER_assert(gr_hash_out == in.tok[2 * ghost_r] && gr_hash_in == UF(acc_endl)(gr_remix_acc), "C04: the hash of the WHOLE re-mixed stack equals the commitment");
+      if (cyclic && ghost_i < gr_ss_size)
+        __CPROVER_assert(gr_ss_first[ghost_i] == (gr_ss_first[0] + ghost_i) % gr_ss_size, "C04: a claimed rotation is a cyclic shift");
+    }
+  }
+}
